@@ -25,6 +25,12 @@ def run(tier, seed, t0):
             for k in ((1, 2) if thorough or be == "spqlios-fma" else (1,)):
                 jobs.append(Job("tgsw-%s-k%d-l%d-bg%d" % (be, k, l, bg), "drv_c03", "optim", be,
                                 ["--part", "tgsw", "--k", k, "--l", l, "--Bgbit", bg, "--tier", tier, "--seed", seed], timeout=3600))
+    # more mask polynomials than any default or unit test uses (k = 3, 4, 5): TLWE and TGSW, two back-ends
+    for k in (3, 4, 5):
+        for be in (vbuild.BACKENDS if thorough else ["spqlios-fma", "nayuki-portable"]):
+            jobs.append(Job("tlwe-%s-k%d" % (be, k), "drv_c03", "optim", be, ["--part", "tlwe", "--k", k, "--tier", "quick", "--seed", seed + k], timeout=3600))
+        jobs.append(Job("tgsw-k%d-l2-bg8" % k, "drv_c03", "optim" if k != 4 else "debug", "spqlios-fma" if k != 4 else "nayuki-portable",
+                        ["--part", "tgsw", "--k", k, "--l", 2, "--Bgbit", 8, "--tier", "quick", "--seed", seed + k], timeout=3600))
     jobs.append(Job("tlwe-debug", "drv_c03", "debug", "spqlios-fma", ["--part", "tlwe", "--k", 1, "--tier", "quick", "--seed", seed + 1], timeout=3600))
     jobs.append(Job("tgsw-debug", "drv_c03", "debug", "nayuki-avx", ["--part", "tgsw", "--k", 1, "--l", 3, "--Bgbit", 7, "--tier", "quick", "--seed", seed + 1], timeout=3600))
     for be in (vbuild.BACKENDS if thorough else ["spqlios-fma"]):
@@ -41,5 +47,5 @@ def run(tier, seed, t0):
 
     return vcheck.simple_run("C03", tier, seed, t0, jobs, "exploration", RULE,
                              ["noise levels satisfy Msize*alpha <= 1/20, so a decoding failure of correct code has probability < 2e-23 per sample",
-                              "TLWE/TGSW: N = 1024 (the only degree of the FFT back-ends), k in {1,2}"],
+                              "TLWE/TGSW: N = 1024 (the only degree of the FFT back-ends), k in {1,2} for the full workload, k in {3,4,5} for the quick workload"],
                              min_evaluations=5000, post=post)
